@@ -5,7 +5,7 @@
     has run; [n_had]: node n was the dependency of at least one addOut call; [n_hrel]: the registered callback. *)
 From Coq Require Import List.
 From Thunder Require Import Reactive.Graph Reactive.Rerunner Reactive.ProofsBase Reactive.ProofsMutex
-  Reactive.ProofsRefcount Reactive.ProofsArmed Reactive.ProofsStale Reactive.Drive.
+  Reactive.ProofsRefcount Reactive.ProofsArmed Reactive.ProofsStale Reactive.ProofsOut Reactive.Drive.
 Import ListNotations.
 
 (** The value of a computation is the list of (slot, version) pairs it read, with the values of the cached
@@ -28,6 +28,19 @@ Theorem final_output_has_no_superseded_version :
     forall sl v, In (sl, v) (n_val (getN s c)) -> v = slot_ver s sl.
 Proof. exact no_lost_invalidation_lemma. Qed.
 Print Assumptions final_output_has_no_superseded_version.
+
+(** the same about the published value [r_out] itself (a prefix of the current computation's value) *)
+Theorem published_output_has_no_superseded_version :
+  forall k progs s r, reachable (init k progs) s -> quiescent s -> r < length (s_rrs s) ->
+  r_cancel (getr s r) = false -> r_failed (getr s r) = false ->
+  exists out, r_out (getr s r) = Some out /\ forall sl v, In (sl, v) out -> v = slot_ver s sl.
+Proof.
+  intros k progs s r R Q Hr X1 X2.
+  destruct (no_lost_invalidation_lemma _ _ _ _ R Q Hr X1 X2) as [c [E1 E2]].
+  destruct (reachable_out _ _ _ R r c E1) as [v [ext [O1 O2]]].
+  exists v. split; [exact O1|]. intros sl x Hin. apply E2. unfold getN. rewrite O2. apply in_app_iff. left. exact Hin.
+Qed.
+Print Assumptions published_output_has_no_superseded_version.
 
 (** Under every schedule a cleanup callback runs at most once ... *)
 Theorem cleanup_at_most_once :
